@@ -463,6 +463,17 @@ impl Writer {
         }
         match ring.submit_and_wait(write_plan.len()) {
             Ok(_) => {
+                #[cfg(walrus_verif)]
+                for (blk, offset, data_idx) in write_plan.iter() {
+                    crate::wal::verif_hooks::trace(|| {
+                        format!(
+                            "uwrite {} {} {}",
+                            blk.file_path,
+                            blk.offset + offset,
+                            buffers.get(*data_idx).map(|b| b.len()).unwrap_or(0)
+                        )
+                    });
+                }
                 let mut all_success = true;
                 for _ in 0..write_plan.len() {
                     if let Some(cqe) = ring.completion().next() {
